@@ -16,7 +16,7 @@ def main(tier: str) -> int:
 
     graph = {}
     for name in (("flow2", "nameq", "dtq") if tier == "quick" else ("flow2", "nameq", "dtq", "pfx", "quads", "qt")):
-        c = slices[name] if name in slices else U.THOROUGH_SLICES[name]
+        c = dict(slices[name] if name in slices else U.THOROUGH_SLICES[name], CheckFits=False)   # the code's own (elision-aware) refusal
         idle, pools, gr = wg.model_idle_states(c)
         real_idle, trans_ = wg.walk(c, pools)
         judged_, gst = wg.judge_transitions(c, trans_)
